@@ -12,6 +12,7 @@ import (
 	"github.com/samaritan-proxy/samaritan/verifrt/sched"
 	"github.com/samaritan-proxy/samaritan/verifrt/sim/cluster"
 	"github.com/samaritan-proxy/samaritan/verifrt/sim/resp"
+	"github.com/samaritan-proxy/samaritan/verifrt/vnet"
 )
 
 // ---------------------------------------------------------------------------
@@ -51,6 +52,9 @@ type c18case struct {
 	Start     string     `json:"start,omitempty"`
 	Pipelined bool       `json:"pipelined,omitempty"` // two iterations in flight at once
 	Refresh   bool       `json:"refresh,omitempty"`   // a periodic slot refresh runs between any two SCAN calls
+	// FailDial: the connection to the second node is lost before the iteration and the next connect attempt to it
+	// is refused once; the client repeats a call that was answered with an error
+	FailDial bool `json:"fail_dial,omitempty"`
 }
 
 func c18run(cs c18case) (sig, detail string) {
@@ -172,9 +176,23 @@ func c18run(cs c18case) (sig, detail string) {
 			}
 			return
 		}
+		if cs.FailDial && n > 1 {
+			cl.Nodes[1].ResetConns()
+			sched.WaitQuiescent()
+			refused := false
+			addr := cl.Nodes[1].Addr
+			vnet.SetDialHook(func(a string) error {
+				if a == addr && !refused {
+					refused = true
+					return vnet.ErrRefused
+				}
+				return nil
+			})
+		}
 		cursor := "0"
 		got := map[string]bool{}
 		steps := 0
+		retries := 0
 		for {
 			steps++
 			if steps > 20 {
@@ -193,6 +211,11 @@ func c18run(cs c18case) (sig, detail string) {
 			if err != nil {
 				sig, detail = "connection-failed", err.Error()
 				return
+			}
+			if v.Kind == '-' && cs.FailDial && retries < 3 {
+				retries++ // the node could not be reached: the client asks again with the same cursor
+				sched.WaitQuiescent()
+				continue
 			}
 			if v.Kind != '*' || len(v.Arr) != 2 || v.Arr[0].Kind != '$' || v.Arr[1].Kind != '*' {
 				sig, detail = "scan-reply-shape", fmt.Sprintf("SCAN %s -> %s", cursor, v)
@@ -304,6 +327,13 @@ func c18scan(env sched.Env) *sched.Report {
 				}
 				try(c18case{Chains: [][]string{a, b, c}})
 			}
+		}
+	}
+	// a refused connect to the node a call addresses (the client repeats the call)
+	for _, a := range shapes[:6] {
+		for _, b := range shapes[:6] {
+			try(c18case{Chains: [][]string{a, b}, FailDial: true})
+			try(c18case{Chains: [][]string{a, b, {"1"}}, FailDial: true})
 		}
 	}
 	// a slot refresh between the calls of one iteration (unchanged node set)
